@@ -801,6 +801,9 @@ class BaseGenBankParser(ABC):
                 )
                 transcript_features = [transcript_features[0]]
 
+            if gene_feature is None and not transcript_features and not cds_features:
+                # only features of unknown types carry this locus tag (each was warned about): no gene to build
+                continue
             grouped_features.append(GroupedGeneFeatures(seqrecord, gene_feature, transcript_features, cds_features))
         self.grouped_gene_features[idx].extend(grouped_features)
 
